@@ -296,6 +296,65 @@ def work_cells(seed: int) -> tuple:
         w.close()
 
 
+def work_rendezvous(seed: int) -> tuple:
+    """
+    Valid cells of a linked hidden-service circuit re-delivered to relays whose routing entries have been removed one by
+    one (the inactivity sweep drops the two entries of a relay pair independently): every subset of the relay entries of
+    the rendezvous point and of the downloader-side relay x every recorded cell, from the right and from a wrong source.
+    """
+    import itertools  # noqa: PLC0415
+
+    from . import c04  # noqa: PLC0415
+    viol: dict = {}
+    n = 0
+    bench = c04.E2EBench("e2e", seed)
+    try:
+        w = bench.w
+        d, s_ = w.ov["D"], w.ov["S"]
+        zero = ("0.0.0.0", 0)
+        n0 = len(w.wire_log)
+        w.nodes["D"].run(d.send_data, bench.ce.hop.address, bench.ce.circuit_id, zero, zero, b"c03-rendezvous-fwd" * 3)
+        w.flush()
+        w.nodes["S"].run(s_.send_data, bench.cs.hop.address, bench.cs.circuit_id, zero, zero, b"c03-rendezvous-bwd" * 3)
+        w.flush()
+        cells = [dg for dg in w.wire_log[n0:] if w.kind(dg).startswith("cell")]
+        by_addr = {tuple(node.address): node for node in w.nodes.values()}
+        states = 0
+        for relay_name in ("N2", "N3"):
+            ov = w.ov[relay_name]
+            saved = dict(ov.relay_from_to)
+            mine = [dg for dg in cells if by_addr.get(tuple(dg.dst)) is w.nodes[relay_name]]
+            for k in range(len(saved) + 1):
+                for gone in itertools.combinations(sorted(saved), k):
+                    states += 1
+                    for dg in mine:
+                        for src in (dg.src, ("66.66.66.66", 6666)):
+                            ov.relay_from_to.clear()
+                            ov.relay_from_to.update({c: r for c, r in saved.items() if c not in gone})
+                            n += 1
+                            try:
+                                w.nodes[relay_name].endpoint.notify_listeners((src, dg.data))
+                                w.loop.settle()
+                            except Exception as e:  # noqa: BLE001
+                                import traceback  # noqa: PLC0415
+                                tb = traceback.extract_tb(e.__traceback__)
+                                where = f"{tb[-1].filename.split('/ipv8/')[-1]}:{tb[-1].name}" if tb else "?"
+                                viol.setdefault(f"receive-raises:{type(e).__name__}:{where}",
+                                                (f"valid cell for circuit id {w.cell_fields(dg.data)[0]} at rendezvous-"
+                                                 f"circuit relay {relay_name} with {len(gone)} of its {len(saved)} relay "
+                                                 f"entries removed raised {type(e).__name__}: {e} at {where}",
+                                                 {"rendezvous": True, "seed": seed}))
+                            del w.inflight[:]
+            ov.relay_from_to.clear()
+            ov.relay_from_to.update(saved)
+        if not cells or states < 8:
+            viol.setdefault("harness:rendezvous-vacuous", (f"{len(cells)} cells, {states} table states",
+                                                           {"rendezvous": True, "seed": seed}))
+        return n, states, viol
+    finally:
+        bench.close()
+
+
 def work_snapshot(seed: int) -> tuple:
     viol: dict = {}
     n = 0
@@ -520,6 +579,9 @@ def run(ctx: core.Ctx) -> core.Report:
     n_snap, snaplen, v = work_snapshot(seed)
     for key, (what, rp) in v.items():
         violations.append(core.Violation(key, what, rp))
+    n_rdv, rdv_states, v = work_rendezvous(seed)
+    for key, (what, rp) in v.items():
+        violations.append(core.Violation(key, what, rp))
     depth = 5 if ctx.thorough else 4    # 10-event alphabet (two overlays, a twin on the same prefix, a sniffer)
     churn = core.pmap(work_churn, [(i, depth, seed) for i in range(len(CHURN_ALPHABET))], ctx.jobs, chunk=1)
     n_churn = sum(c[0] for c in churn)
@@ -541,7 +603,7 @@ def run(ctx: core.Ctx) -> core.Report:
     for key, (what, rp) in sorted(fold.items())[:12]:
         violations.append(core.Violation(key, what, rp))
     dec["violating_classes"] = len({k.split(":")[1] for k in fold})
-    total = evals + n_cells + n_snap + dec["evaluations"] + n_churn
+    total = evals + n_cells + n_snap + dec["evaluations"] + n_churn + n_rdv
     cov = {
         "evaluations": total,
         "distinct_nontrivial": total - len(items),
@@ -557,6 +619,9 @@ def run(ctx: core.Ctx) -> core.Report:
         "handler_entries_observed": entered,
         "cell_inputs": n_cells, "cell_kinds": cell_kinds,
         "snapshot_inputs": n_snap,
+        "rendezvous_relays": {"inputs": n_rdv, "table_states": rdv_states,
+                              "rule": "recorded valid cells of a linked hidden-service circuit x every subset of the relay "
+                                      "entries of the rendezvous point and of the downloader-side relay removed"},
         "demux_churn": {"deliveries": n_churn, "depth": depth, "alphabet": CHURN_ALPHABET},
         "decoder_part": dec,
         "hosts": {k: v for k, v in hosts.items()},
@@ -579,6 +644,8 @@ def replay(ctx: core.Ctx, data) -> list:  # noqa: ANN001
         return out
     if data.get("cells"):
         return [core.Violation(k, w) for k, (w, _) in work_cells(data["seed"])[2].items()]
+    if data.get("rendezvous"):
+        return [core.Violation(k, w) for k, (w, _) in work_rendezvous(data["seed"])[2].items()]
     if "snapshot" in data:
         return [core.Violation(k, w) for k, (w, _) in work_snapshot(0)[2].items()]
     if "host" in data:
